@@ -14,6 +14,8 @@ def run_iters(ctx, name, recs, texts_path, part, excl="", violation=True, shards
     prefix = os.path.join(d, name + ".iters")
     clean_prefix(prefix)
     shards = max(1, min(shards, (len(recs) + 19) // 20))
+    if shards == 16 and len(recs) > 4000:
+        shards = 16 * ((len(recs) + 3999) // 4000)      # keep every shard file small enough for a 2 GB JVM; still 16 at a time
     t0 = time.time()
     args = ["iters", "--asts", asts, "--texts", texts_path, "--out", prefix, "--shards", shards, "--parts", parts or PARTS_ARG[part]]
     if regex:
